@@ -110,6 +110,7 @@ type copyCase struct {
 	ext         *extHost
 	defaultOpts bool
 	includeExt  bool
+	refTgtRepo  string // ImageWithReferrerTgt: referrers (with their own content) go to this repository of the target registry
 	disk        *simos.Disk
 	// observation of target writes (set up by watch)
 	writes     []wev
@@ -251,6 +252,12 @@ func genCopyCase(e *core.Env, o copyGenOpts) *copyCase {
 			} else {
 				c.opts = append(c.opts, regclient.ImageWithReferrers())
 				c.optNames = append(c.optNames, "referrers")
+			}
+			// referrers kept in a repository of their own at the target (one copy then writes into two repositories)
+			if c.tgt != nil && c.pairing != "same-repository" && e.Choose("gen", 4, "optReferrerTgt") == 3 {
+				c.refTgtRepo = c.tgtRepo + "-referrers"
+				c.opts = append(c.opts, regclient.ImageWithReferrerTgt(mustRef(c.tgt.Name+"/"+c.refTgtRepo)))
+				c.optNames = append(c.optNames, "referrer-tgt")
 			}
 		}
 		if e.Choose("gen", 3, "optDigestTags") == 1 {
@@ -489,6 +496,10 @@ func (c *copyCase) checkComplete(e *core.Env) {
 		e.Infra("generator produced an incomplete source: %v", bad)
 		return
 	}
+	if c.refTgtRepo != "" {
+		c.checkCompleteSplit(e, srcS, tgtS, wo, needs, tags)
+		return
+	}
 	// external layers copied with include-external come from the external host
 	miss := oracle.CheckPresent(extAware{srcS, c.ext}, tgtS, needs)
 	if len(miss) > 0 {
@@ -523,6 +534,51 @@ func (c *copyCase) checkComplete(e *core.Env) {
 		}
 	}
 	e.ProbeN("closure-items", len(needs))
+}
+
+// checkCompleteSplit is the C03 oracle when the referrers go to a repository of their own: the image (and its
+// digest-tags) is complete in the target repository, every referrer - of the image, of its children, of other
+// referrers - is complete in the referrers repository and listed there for its subject.
+func (c *copyCase) checkCompleteSplit(e *core.Env, srcS, tgtS oracle.Store, wo oracle.WalkOpts, needsAll []oracle.Need, tags map[string]string) {
+	woMain := wo
+	woMain.Referrers = false
+	mainNeeds, _, _ := oracle.Closure(srcS, c.gr.Root.Digest, woMain)
+	if miss := oracle.CheckPresent(extAware{srcS, c.ext}, tgtS, mainNeeds); len(miss) > 0 {
+		sort.Strings(miss)
+		e.Violation("complete", "missing-"+classify(miss[0]), "copy returned nil (%s, %s, opts %v) but in the target repository: %s", c.pairing, c.preState, c.optNames, strings.Join(miss, "; "))
+	}
+	refS := oracle.RegStore{Reg: c.tgt, Repo: c.refTgtRepo}
+	nrefs := 0
+	for _, n := range needsAll {
+		if n.ReferrerOf == "" {
+			continue
+		}
+		nrefs++
+		sub, _, _ := oracle.Closure(srcS, n.Digest, oracle.WalkOpts{IncludeExternal: wo.IncludeExternal})
+		if miss := oracle.CheckPresent(extAware{srcS, c.ext}, refS, sub); len(miss) > 0 {
+			sort.Strings(miss)
+			e.Violation("complete", "missing-in-referrer-repository", "copy returned nil (%s, %s, opts %v) but referrer %s of %s is incomplete in the referrers repository: %s", c.pairing, c.preState, c.optNames, short(n.Digest), short(n.ReferrerOf), strings.Join(miss, "; "))
+			continue
+		}
+		listed := false
+		for _, d := range refS.ReferrersOf(n.ReferrerOf) {
+			if d == n.Digest {
+				listed = true
+			}
+		}
+		if !listed {
+			e.Violation("complete", "referrer-not-listed", "copy returned nil and referrer %s of %s is stored in the referrers repository, which does not list it among the referrers of its subject", short(n.Digest), short(n.ReferrerOf))
+		}
+	}
+	for t, d := range tags {
+		if got, _ := tgtS.Tag(t); got != d {
+			e.Violation("complete", "digest-tag-missing", "digest-tag %s resolves to %q at the target, %s at the source", t, got, d)
+		}
+	}
+	if nrefs > 0 {
+		e.Probe("referrers-to-their-own-repository")
+	}
+	e.ProbeN("closure-items", len(needsAll))
 }
 
 func classify(s string) string {
